@@ -425,9 +425,20 @@ func VerifControllerWorld(layout, nsvc, eventKind, failures int) {
 	w := vhStart(api, ps)
 	api.failing = failures
 	early := ctrl.Request{NamespacedName: types.NamespacedName{Namespace: "ns0", Name: specs[vr.Choose(nsvc)].name[4:]}}
+	if eventKind == 0 && vr.Bool() {
+		// the early event may also be the deletion of a Service that no longer exists
+		ghost := ctrl.Request{NamespacedName: types.NamespacedName{Namespace: "ns0", Name: "ghost"}}
+		_, _ = w.r.Reconcile(context.Background(), ghost)
+		w.settle(nil) // whatever that event asked for runs now, before the pools are known
+	}
 	_, _ = w.r.Reconcile(context.Background(), early)
 	vr.Assert(api.writes == 0, "a service event delivered before the first full sync was processed")
 	st := w.c.SetPools(log.NewNopLogger(), vhCtlPools(ps))
+	if eventKind == 0 {
+		// the pools are known now, the first full sync has not run yet: service events are still early
+		_, _ = w.r.Reconcile(context.Background(), early)
+		vr.Assert(api.writes == 0 && len(w.c.ips.IPs(early.NamespacedName.String())) == 0, "a service event delivered before the first full sync was processed")
+	}
 	if eventKind == 0 && failures > 0 && vr.Bool() {
 		// the first full sync cannot even list the Services; events arriving before the retry are still early
 		api.listFails = 1
